@@ -1,5 +1,6 @@
 #!/bin/bash
 # usage: thorough_some.sh "<ids>" "<seeds>"
+test -d .deps/atheris || /venv/bin/pip install -q --no-index --find-links /opt/veriftools/wheels --target .deps atheris
 for seed in $2; do for id in $1; do
   s=$(date +%s)
   out=$(VERIF_SEED=$seed timeout 7200 /venv/bin/python pbt/run.py $id --tier thorough --no-evidence 2>&1)
